@@ -253,6 +253,60 @@ def grammar(xml, target):
                             continue
 
 
+# ------------------------------------------------- multi-assertion layer
+
+MULTI = ('G', 'F', 'U', 'EF', 'EG')
+
+
+def multi_doc(seq):
+    """Response (unsigned) carrying a sequence of: G genuine signed assertion, F forged unsigned assertion, U assertion
+    encrypted for somebody else, EF forged assertion encrypted for this SP, EG genuine assertion encrypted for this SP."""
+    now = env.BASE
+    parts = []
+    ids = {}
+    for i, k in enumerate(seq):
+        if k in ('G', 'EG'):
+            a = forge.assertion(now, aid='G%d' % i, sign=True)
+        else:
+            a = forge.assertion(now, aid='F%d' % i, subject='FORGED-SUBJECT', attrs=(('givenName', ('FORGED-MARK',)), ('role', ('FORGED-ROLE',))))
+        parts.append(a)
+    x = forge.response(now, parts)
+    for i, k in enumerate(seq):
+        if k in ('G', 'EG'):
+            x = forge.sign(x, 'G%d' % i, 'idpA')
+    d = xmlsec.parse_doc(x)
+    root = d.documentElement
+    kids_ = [c for c in elems(root) if c.localName == 'Assertion']
+    for k, a in zip(seq, kids_):
+        if k in ('U', 'EF', 'EG'):
+            wrap = d.createElementNS(SAML, 'saml:EncryptedAssertion')
+            root.replaceChild(wrap, a)
+            wrap.appendChild(a)
+            xmlsec.encrypt_node(d, a, forge.enc_template(), world.pub('spY' if k == 'U' else 'spXenc1'))
+    return root.toxml()
+
+
+def evaluate_multi(task):
+    seq, cfgs = task
+    xml = multi_doc(seq)
+    out = []
+    for cfg in cfgs:
+        env.Clock.set(env.BASE)
+        obs = oracle.accept_response(sp_for(cfg), xml)
+        why = None
+        if obs['accept'] and 'FORGED' in repr(obs['identity']):
+            why = 'identity-contains-content-of-an-unsigned-assertion'
+        out.append({'cfg': list(cfg), 'accept': obs['accept'], 'exc': obs.get('exc'), 'why': why,
+                    'subject': obs['identity']['name_id'][0] if obs['accept'] and obs['identity']['name_id'] else None})
+    return out
+
+
+def evaluate_any(t):
+    if t[0] == 'multi':
+        return evaluate_multi(t[1:])
+    return evaluate(t)
+
+
 # ---------------------------------------------------------------- run
 
 def build_tasks(ctx):
@@ -345,8 +399,12 @@ def build_tasks(ctx):
 def run(ctx):
     TMP[0] = ctx.tmp
     tasks = build_tasks(ctx)
-    res = ctx.pmap(evaluate, [t for _c, t in tasks])
-    ctx.recheck(evaluate, [t for _c, t in tasks], res, n=32)
+    mcfgs = [(False, True, False), (False, False, True), (False, True, True)]
+    for n_ in (1, 2, 3):
+        for seq in itertools.product(MULTI, repeat=n_):
+            tasks.append((dict(kind='multi', seq=list(seq), start='A', enc=False), ('multi', seq, mcfgs)))
+    res = ctx.pmap(evaluate_any, [t for _c, t in tasks])
+    ctx.recheck(evaluate_any, [t for _c, t in tasks], res, n=32)
     n_eval = 0
     accepted = 0
     hist = {}
@@ -373,7 +431,7 @@ def run(ctx):
                 key = dict(coords)
                 key['cfg'] = o['cfg']
                 key['why'] = o['why']
-                ctx.violation(key, {'subject': o['subject'], 'document': task[1][:6000]})
+                ctx.violation(key, {'subject': o['subject'], 'document': str(task[1])[:6000]})
     vac = not starts_ok
     if vac:
         ctx.note('VACUOUS: a start document is no longer accepted; only-if property holds vacuously for it')
@@ -386,7 +444,7 @@ def run(ctx):
             'states': len(tasks), 'transitions': n_eval, 'traces_validated_against_impl': n_eval,
             'samples': samples, 'exhaustive': True, 'accepted': accepted, 'vacuous': vac,
             'layers': layers, 'distinct_outcomes': len(hist), 'outcome_histogram': hist,
-            'rule': 'states = distinct documents reachable from validly signed starts {assertion-signed, response-signed, both}%s by (1) the complete wrapping grammar twin x original-slot x keeps-signature x two signature-copy slots x reference target, (2) every depth-1 tree edit (text/attr/delete/move/copy/wrap/dupsig/setid at every site), (3) depth-2 structural-then-follow-up family; plain and encrypted (assertion-signed); transitions = (state, SP configuration) acceptance runs of the real parse_authn_request_response, each judged by the strict verifier + identity-origin oracle' % (' x all five RSA-SHA algorithms' if ctx.thorough else ''),
+            'rule': 'states = distinct documents reachable from validly signed starts {assertion-signed, response-signed, both}%s by (1) the complete wrapping grammar twin x original-slot x keeps-signature x two signature-copy slots x reference target, (2) every depth-1 tree edit (text/attr/delete/move/copy/wrap/dupsig/setid at every site), (3) depth-2 structural-then-follow-up family, (4) every sequence of <= 3 assertions drawn from {genuine signed, forged unsigned, encrypted for somebody else, forged encrypted for this SP, genuine encrypted for this SP} in an unsigned response; plain and encrypted (assertion-signed); transitions = (state, SP configuration) acceptance runs of the real parse_authn_request_response, each judged by the strict verifier + identity-origin oracle' % (' x all five RSA-SHA algorithms' if ctx.thorough else ''),
         },
         'assumptions': ['xmlsec1 environment model (first Signature in the subtree of --node-id is verified; --id-attr registers IDs by element name); see DESIGN 4',
                         'edit depth bounded at 2 (+ grammar shapes); alphabets as listed'],
@@ -395,6 +453,9 @@ def run(ctx):
 
 def replay(ctx, w):
     TMP[0] = ctx.tmp
+    if w['kind'] == 'multi':
+        out = evaluate_multi((tuple(w['seq']), [tuple(w['cfg'])]))[0]
+        return {'violation': bool(out['why']), 'observed': out}
     kind = w.get('start')
     xml = start_doc(kind, w.get('alg', 'sha256'))
     if w['kind'] == 'grammar':
